@@ -83,8 +83,7 @@ static void client_auth(int mode)
     if (nco == 1) {
         vp_assert(s.isBindSet(), "C16 connected is announced only for a resource-binding request");
         vp_assert(!w.d->resource.isEmpty(), "C16 a bound resource is not empty");
-        const QString expect = bare0 + QStringLiteral("/") + w.d->resource;
-        vp_assert(eq(w.d->jid, expect), "C16 binding keeps the authenticated bare address and only sets the resource");
+        vp_assert(vp_c16_concat_eq(&w.d->jid, &bare0, '/', &w.d->resource), "C16 binding keeps the authenticated bare address and only sets the resource");
     }
     if (nco == 0) vp_assert(eq(w.d->jid, w.jid0) && eq(w.d->resource, w.resource0), "C16 address and resource change only by binding");
     vp_assume(mode == 0 ? nel == 1 : mode == 1 ? nco == 1 : nel + nco == 0);
@@ -92,3 +91,6 @@ static void client_auth(int mode)
 extern "C" void h_client_auth_route() { client_auth(0); }
 extern "C" void h_client_auth_bind() { client_auth(1); }
 extern "C" void h_client_auth_drop() { client_auth(2); }
+
+extern "C" void h_probe_warm() { vpC16Warm(); }
+extern "C" void h_probe_world() { World w(1); ClientStanza s; s.build(); }
